@@ -1371,7 +1371,7 @@ pub fn codegen(
     const MAX_ITERATIONS: usize = 50;
 
     #[cfg(not(test))]
-    const MAX_ITERATIONS: usize = usize::MAX;
+    const MAX_ITERATIONS: usize = 1000;
 
     let mut prev_undefined = HashSet::new();
     let mut prev_errors = Diagnostics::default().with_code_map(&ctx.tree.code_map);
@@ -1442,6 +1442,15 @@ pub fn codegen(
         errors = Diagnostics::default().with_code_map(&ctx.tree.code_map);
 
         ctx.next_pass();
+    }
+
+    if ctx.pass_idx == MAX_ITERATIONS {
+        // The layout keeps changing from pass to pass (e.g. two branches that alternately push each other in and out of range)
+        errors.push(Diagnostic::error().with_message(format!(
+            "code generation did not settle after {} passes",
+            MAX_ITERATIONS
+        )));
+        return (Some(ctx), errors);
     }
 
     // We're done!
